@@ -144,4 +144,14 @@ PROPS = {
         "assumptions": ["net/url (Parse, IsAbs, Hostname) and net/http's redirect following are trusted and exercised, not modelled: the model works on the hostnames Go reports",
                         "net/http adds 'Basic <userinfo>' itself for URLs carrying userinfo; the harness does not count that as a configured credential"],
     },
+    "C16": {
+        "obligation_files": ["Properties/C16.v"],
+        "model_files": ["Model/TPServer.v", "Corr/Transport.v", "Corr/RunT.v"],
+        "rule": "stream tp-hist: the real tp.TP handlers and MemoryStore driven in-process (httptest) over three root tokens with third-party caveats: histories of 3-12 actions from {init with a valid / tampered / foreign / empty ticket and an application that answers immediately, with a poll URL, a user-interactive pair or an error; poll; user-page visit with approve / abort / nothing; direct DischargePoll / AbortPoll / DischargeUserInteractive / AbortUserInteractive} "
+                "with right, crossed (poll secret at the user endpoint and vice versa) and guessed secrets, interleaving several flows; observable = status, body kind, whether the application ran, and for every returned discharge which root token it verifies against (exactly one expected) and the caveats it adds; "
+                "implementation-side oracle: no poll delivers a discharge for a flow the application never approved; non-trivial = at least one flow was created",
+        "assumptions": ["secrets are 16 random bytes: modelled as fresh atoms, a guess is a value the store never issued",
+                        "LRU eviction of the MemoryStore (capacity 1000 in the harness) is not modelled: an evicted flow behaves as collected (not found)",
+                        "two polls racing on the same flow may both deliver (outside 'once the answer has been collected'); handlers are compared sequentially"],
+    },
 }
